@@ -249,6 +249,9 @@ func GvcAssume(b bool)                     { panic("gvc") }
 func GvcAssert(b bool, label string)       { panic("gvc") }
 func GvcFresh[T any](p T) bool             { panic("gvc") }
 func GvcLoopFresh[T any](p T) bool         { panic("gvc") }
+func GvcBase[T any](s []T) *T              { panic("gvc") }
+func GvcElemsFrame[T any](s []T) bool      { panic("gvc") }
+func GvcSameElems[T any](s []T) bool       { panic("gvc") }
 func GvcTypeName(x any) string             { panic("gvc") }
 
 type GvcArr[K comparable, V any] struct{ _ [0]func(K) V }
@@ -441,7 +444,32 @@ func generateOverlay(pk *packages.Package, fset *token.FileSet, cf *ContractFile
 				case *ast.RangeStmt:
 					bodyPos = l.Body.Lbrace + 1
 				}
+				// inside old(...), parameters denote their entry values
+				var pnames []string
+				if fd.Recv != nil {
+					for _, f := range fd.Recv.List {
+						for _, n := range f.Names {
+							pnames = append(pnames, n.Name)
+						}
+					}
+				}
+				for _, f := range fd.Type.Params.List {
+					for _, n := range f.Names {
+						pnames = append(pnames, n.Name)
+					}
+				}
+				oldArgRewrite = func(arg string) string {
+					for _, pn := range pnames {
+						if pn == "_" {
+							continue
+						}
+						re := regexp.MustCompile(`(^|[^A-Za-z0-9_.])` + regexp.QuoteMeta(pn) + `\b`)
+						arg = re.ReplaceAllString(arg, "${1}gvcentry_"+pn)
+					}
+					return arg
+				}
 				ex, err := Desugar(cl.Expr, oldTyper(pk, fset, bodyPos, qual))
+				oldArgRewrite = nil
 				if err != nil {
 					return nil, fmt.Errorf("%s:%d: %v", cl.File, cl.Line, err)
 				}
@@ -472,6 +500,15 @@ func generateOverlay(pk *packages.Package, fset *token.FileSet, cf *ContractFile
 						continue
 					}
 					if scope == nil {
+						continue
+					}
+					if strings.HasPrefix(id, "gvcentry_") {
+						_, pobj := scope.LookupParent(strings.TrimPrefix(id, "gvcentry_"), bodyPos)
+						if pv, ok := pobj.(*types.Var); ok {
+							ts := types.TypeString(pv.Type(), qual)
+							ps = append(ps, id+" "+ts)
+							cl.Locals = append(cl.Locals, LocalRef{Name: id, Entry: true, Type: ts, Pos: pv.Pos(), Decl: fset.Position(pv.Pos())})
+						}
 						continue
 					}
 					_, obj := scope.LookupParent(id, bodyPos)
